@@ -102,6 +102,45 @@ if exe:
             samples.append(dict(case, blocks=len(infos),
                                 nblock=[i['nblock'] for i in infos][:5],
                                 tables=[len(i['lens']) for i in infos][:5]))
+    # completely full level-9 blocks of incompressible data: the selector
+    # count sits at its maximum (18001 real groups possible), so the padding
+    # rule decides whether the declared count stays <= 18002
+    full = [('full-900k-%d' % k, E.norun(ck.rng, 900000 + ck.rng.choice([0, 0, 1, 49])))
+            for k in range(8 if ck.quick else 24)]
+    res = proc.run_many([dict(exe=exe, args=['-9', '-n%d' % ck.rng.choice([1, 2, 4])],
+                              data=d, timeout=300) for _, d in full])
+    for k, ((name, data), r) in enumerate(zip(full, res)):
+        evals += 1
+        dist['full-block'] = dist.get('full-block', 0) + 1
+        case = {'input': name, 'bytes': len(data), 'level': 9}
+        probs = []
+        if r.code() != 'exit0' or r.err:
+            probs.append('compression failed: %r' % r)
+        else:
+            cnt = E.first_block_counts(r.out)
+            if cnt is None:
+                probs.append('no block magic after the header')
+            else:
+                tabstats['max_selectors'] = max(tabstats['max_selectors'], cnt[1])
+                if not (2 <= cnt[0] <= 6):
+                    probs.append('first block declares %d tables' % cnt[0])
+                if not (1 <= cnt[1] <= 18002):
+                    probs.append('first block declares %d selectors' % cnt[1])
+            try:
+                if B.libbz2_decode(r.out) != data:
+                    probs.append('libbz2 decodes to different bytes')
+            except B.Reject as e:
+                probs.append('libbz2 rejects: %s' % e)
+            if k == 0 and not probs:
+                probs += E.inspect_c02(r.out, 9)[1]
+        if probs:
+            ck.violation('output not strictly well-formed: ' + '; '.join(probs[:4]),
+                         dict(case, problems=probs, input_family=name,
+                              how='VERIF_SEED=%d ./check C02 regenerates the '
+                                  'input (norun random, %d bytes)' % (ck.seed, len(data)),
+                              output_head_hex=(r.out or b'')[:256].hex()))
+        else:
+            nontriv += 1
 ck.log('distribution:', dist, tabstats)
 ck.finish({
     'evaluations': evals, 'distinct_nontrivial': nontriv,
